@@ -37,6 +37,9 @@ struct AmbientReads {
     long total() const { return clock + random + env + sleep + lock + nonReentrant; }
 };
 void ambientResetPerRun();
+// simulated clock and random stream back to their start (the call counters keep counting): done after input generation,
+// so that what an operation reads from them depends on the recorded case only, not on what the generator consumed
+void ambientResetStreams();
 AmbientReads ambientReads();
 // set by the scheduler: give up the CPU because a lock is held by a parked task
 extern void (*ambientYieldHook)(void);
